@@ -76,23 +76,71 @@ func vh_paging() {
 	iter := c.executeQuery(q.context, q)
 	var got []int32
 	total := len(all)
-	for i := 0; i <= total; i++ {
-		var x int32
-		if !iter.Scan(&x) {
-			break
+	consumer := vBound("consumer") // 0 Scan, 1 Scanner, 2 MapScan, 3 SliceMap
+	var sc Scanner
+	var sliceErr error
+	switch consumer {
+	case 1:
+		sc = iter.Scanner()
+		for i := 0; i <= total && sc.Next(); i++ {
+			var x int32
+			if sc.Scan(&x) != nil {
+				break
+			}
+			got = append(got, x)
 		}
-		got = append(got, x)
+		vAssert(!sc.Next(), "C15/paging/stops-after-the-last-row")
+	case 2:
+		for i := 0; i <= total; i++ {
+			m := map[string]interface{}{}
+			if !iter.MapScan(m) {
+				break
+			}
+			x, _ := m["a"].(int)
+			got = append(got, int32(x))
+		}
+		vAssert(!iter.MapScan(map[string]interface{}{}), "C15/paging/stops-after-the-last-row")
+	case 3:
+		var rows []map[string]interface{}
+		rows, sliceErr = iter.SliceMap()
+		for _, m := range rows {
+			x, _ := m["a"].(int)
+			got = append(got, int32(x))
+		}
+	default:
+		for i := 0; i <= total; i++ {
+			var x int32
+			if !iter.Scan(&x) {
+				break
+			}
+			got = append(got, x)
+		}
+		var extra int32
+		vAssert(!iter.Scan(&extra), "C15/paging/stops-after-the-last-row")
 	}
-	var extra int32
-	vAssert(!iter.Scan(&extra), "C15/paging/stops-after-the-last-row")
 	// every row of every page exactly once, in order
 	ok := len(got) == total
 	for i := 0; ok && i < total; i++ {
 		want := int32(all[i][0])<<24 | int32(all[i][1])<<16 | int32(all[i][2])<<8 | int32(all[i][3])
 		ok = got[i] == want
 	}
+	var cerr error
+	switch consumer {
+	case 1:
+		cerr = sc.Err()
+	case 3:
+		cerr = sliceErr
+		if cerr == nil {
+			cerr = iter.Close()
+		}
+	default:
+		cerr = iter.Close()
+	}
+	if failAt >= 0 && consumer == 3 {
+		// SliceMap reports the error instead of rows; the rows before the failed page are not returned
+		ok = true
+	}
 	vAssert(ok, "C15/paging/every-row-once-in-order")
-	cerr := iter.Close()
 	if failAt >= 0 {
 		vAssert(cerr != nil, "C15/paging/failed-fetch-is-the-iterations-error")
 		vAssert(len(vPageReqs) == failAt+1, "C15/paging/no-request-after-a-failed-fetch")
